@@ -21,12 +21,12 @@ var (
 func sconst(t *Term) *big.Int { return big.NewInt(sx(t.Val, t.S.W)) }
 
 type linProver struct {
-	c      *Ctx
-	bounds map[*Term]*ival
-	facts  []linForm // each: sum >= 0 (mathematically)
-	raw    []*Term   // comparison literals between non-constant sides, turned into facts after bounds are known
-	rawPos []bool
-	edges  []diffEdge
+	c        *Ctx
+	bounds   map[*Term]*ival
+	facts    []linForm // each: sum >= 0 (mathematically)
+	raw      []*Term   // comparison literals between non-constant sides, turned into facts after bounds are known
+	rawPos   []bool
+	edges    []diffEdge
 	inStride bool
 }
 
@@ -451,7 +451,6 @@ func (e *Engine) linearDischarge(assumps []*Term, goal *Term) bool {
 	}
 	return r
 }
-
 
 // ---- difference constraints ---------------------------------------------------------------------------
 // Facts and bounds of the shape  x - y + k >= 0  (coefficients +1/-1) form a weighted graph; a goal of the
